@@ -352,7 +352,9 @@ func (s *TxStub) GetStateByRangeWithPagination(startKey, endKey string, pageSize
 	}
 	all := s.rangeKV(startKey, endKey)
 	next := ""
-	if int(pageSize) < len(all) {
+	if pageSize <= 0 {
+		all = nil // a page of no (or of a negative number of) records holds nothing
+	} else if int(pageSize) < len(all) {
 		next = all[pageSize].Key
 		all = all[:pageSize]
 	}
